@@ -129,13 +129,15 @@ def build(ctx):
     NCH = 2 if ctx.tier == 'quick' else 3
     ctx.bounds = {'pairs (antisymmetry, Equal => identical)': 'up to %d chunks per operand' % (3 if NCH <= 2 else 4), 'identifier length (chunking)': '<= %d ASCII characters, any content; one all-digit identifier of 20 and 21 characters for the numeric range' % L,
                   'chunk lists (comparator)': 'three operands of <= %d chunks with symbolic kinds, values, zero counts and uninterpreted texts' % NCH}
-    ctx.outside = ['that sort is called on the right slices; group boundaries; attached comments', 'permutation -> same text (needs the formatter)',
+    ctx.outside = ['that sort is called on the right slices (only which std sorting routine each site of reorder.rs / imports.rs calls is decided); group boundaries; attached comments', 'permutation -> same text (needs the formatter)',
                    'non-ASCII identifiers (byte offsets differ from character positions)', 'UseSegment / UseTree ordering of style editions <= 2021', 'compare_items (rustc Symbol strings)']
     ctx.assumptions = ['str cmp on chunk texts = a total order on uninterpreted values (antisymmetric, transitive, Equal iff equal; ground-instantiated)',
                        'digit runs sort before identifier text (ASCII digits < letters)', 'a numeric chunk is determined by (value, zeros) and vice versa (decimal notation)']
     install_str_model(eng)
     part_chunking(ctx, eng, L)
     part_comparator(ctx, eng, NCH)
+    part_sort_sites(ctx, eng)
+    part_group_delimiting(ctx, eng)
     validate(ctx)
 
 
@@ -406,6 +408,290 @@ def part_comparator(ctx, eng, NCH):
 
 
 # ----------------------------------------------------------------------------- native
+
+# ======================================================================================= (c) the sorting routine at every site of reorder.rs / imports.rs
+# environment contract of the sorting routines (std slice docs, itertools docs): True = equal elements keep their order
+SORT_CONTRACT = [(r'(^|::)(sort|sort_by|sort_by_key|sort_by_cached_key)(::<.*>)?$', True), (r'(^|::)(sort_unstable|sort_unstable_by|sort_unstable_by_key|select_nth_unstable\w*)(::<.*>)?$', False),
+                 (r'(^|::)(sorted|sorted_by|sorted_by_key|sorted_by_cached_key)(::<.*>)?$', True), (r'(^|::)(sorted_unstable\w*)(::<.*>)?$', False)]
+SORT_FILES = ('src/reorder.rs', 'src/imports.rs')
+
+
+def part_sort_sites(ctx, eng):
+    """UseTree's Ord and compare_items are preorders (aliases, attributes, comments and visibility are not compared), so the property's
+    "ranked equal and keep their relative order" rests on every sort of a reorderable list being stable.  Every call of a sorting routine in the
+    MIR of src/reorder.rs and src/imports.rs is collected; per site the solver decides, over the routine's documented contract (a sorted
+    permutation; for the stable routines additionally order-preserving on ties), whether two equal-ranked neighbours can come out swapped."""
+    from mirsym.mirparse import block_parsed
+    sites = []
+    for r in eng.records:
+        try:
+            f_ = r['file'] or eng.fn_file(r['name'])
+        except Exception:
+            f_ = None
+        if f_ not in SORT_FILES:
+            continue
+        fn = eng.get_fn(r['name'])
+        for bb, blk in fn.blocks.items():
+            if blk.get('cleanup'):
+                continue
+            try:
+                stmts, term = block_parsed(blk)
+            except Exception:
+                continue
+            if term[0] != 'call' or term[2][0] != 'path':
+                continue
+            callee = term[2][1]
+            last = base_name(callee)
+            if not re.match(r'^(sort|sorted|select_nth)', last) or 'version_sort' in callee:
+                continue
+            sp = (blk.get('spans') or [None])[-1]
+            sites.append((r['name'], bb, callee, sp, f_))
+    if len(sites) < 3:
+        raise Inconclusive('sort sites: only %d calls of a sorting routine found in %s (expected at least 3): the scan is broken' % (len(sites), ', '.join(SORT_FILES)))
+    # two neighbours x, y of equal rank, x first in the input; pos_x / pos_y are their places in the output
+    px, py = z3.Int('position_of_the_first_twin'), z3.Int('position_of_the_second_twin')
+    perm = [px >= 0, py >= 0, px <= 1, py <= 1, px != py]       # the routine returns a permutation, sorted (vacuous for equal ranks)
+    for name, bb, callee, sp, f_ in sites:
+        stable = None
+        for rx, v in SORT_CONTRACT:
+            if re.search(rx, base_name(callee)):
+                stable = v
+        label = 'sort-site/%s/%s' % (short_fn(name), base_name(callee))
+        if stable is None:
+            raise Inconclusive('sort sites: no contract recorded for %s called in %s' % (callee, name))
+        contract = perm + ([px < py] if stable else [])
+        ctx.prop(label + '/equal-ranked-elements-keep-their-relative-order', contract, px > py, [px, py], make_sort_replay(ctx), twin=True, meta={'site': '%s bb%d %s' % (name, bb, sp)})
+    ctx.notes.append('sort sites: %d calls of sorting routines in %s: %s' % (len(sites), ', '.join(SORT_FILES), '; '.join('%s -> %s' % (short_fn(n), base_name(c)) for n, _, c, _, _ in sites)))
+
+
+def base_name(callee):
+    prev = None
+    c = re.sub(r'\{closure@[^}]*\}', 'closure', callee)
+    while prev != c:
+        prev, c = c, re.sub(r'<[^<>]*>', '', c)
+    return [x for x in c.split('::') if x][-1]
+
+
+def short_fn(name):
+    return re.sub(r'<impl at (src/[^:]+):\d+:\d+: \d+:\d+>', r'<\1>', name)[-70:]
+
+
+def make_sort_replay(ctx):
+    def replay(model, r):
+        bins = ensure_bins()
+        rf = os.path.join(bins, 'rustfmt')
+        d = os.path.join(BUILD, 'scratch', 'c11s-%d' % os.getpid())
+        shutil.rmtree(d, ignore_errors=True)
+        os.makedirs(d)
+        names = ['m%02d' % i for i in range(30, 2, -1)]
+        found = []
+        for first, second in (('unix', 'windows'), ('windows', 'unix')):
+            tw_use = '#[cfg(%s)]\nuse krate::m11 as imp_%s;\n#[cfg(%s)]\nuse krate::m11 as imp_%s;\n' % (first, first, second, second)
+            tw_mod = '#[cfg(%s)]\nmod m11;\n#[cfg(%s)]\nmod m11;\n' % (first, second)
+            tw_ext = '#[cfg(%s)]\nextern crate m11;\n#[cfg(%s)]\nextern crate m11;\n' % (first, second)
+            cases = {'imports': ''.join('use krate::%s;\n' % n for n in names[:13]) + tw_use + ''.join('use krate::%s;\n' % n for n in names[13:]),
+                     'nested import list': 'use krate::{%s, m11 as imp_%s, %s, m11 as imp_%s, %s};\n' % (', '.join(names[:9]), first, ', '.join(names[9:18]), second, ', '.join(names[18:])),
+                     'mods': ''.join('mod %s;\n' % n for n in names[:13]) + tw_mod + ''.join('mod %s;\n' % n for n in names[13:]),
+                     'extern crates': ''.join('extern crate %s;\n' % n for n in names[:13]) + tw_ext + ''.join('extern crate %s;\n' % n for n in names[13:])}
+            for what, src in cases.items():
+                for extra in ('', ',imports_granularity=Crate', ',imports_granularity=Module'):
+                    if extra and 'import' not in what:
+                        continue
+                    for se in ('2015', '2024'):
+                        p_ = os.path.join(d, 'x.rs')
+                        open(p_, 'w').write(src)
+                        pr = subprocess.run([rf, '--emit', 'stdout', '--quiet', '--style-edition', se, '--config', 'skip_children=true' + extra, p_], capture_output=True, text=True, env=run_env(), timeout=60, cwd=d)
+                        if pr.returncode != 0:
+                            continue
+                        a, b = pr.stdout.find(first), pr.stdout.find(second)
+                        if a < 0 or b < 0:
+                            continue
+                        if a > b:
+                            found.append('%s, style edition %s%s: the twin written first (%s) comes out second' % (what, se, extra, first))
+        shutil.rmtree(d, ignore_errors=True)
+        return {'reproduced': bool(found), 'detail': found[:6]}
+    return replay
+
+
+# ======================================================================================= (d) what may be reordered together
+def z3_consts(exprs):
+    seen, out, todo = set(), [], list(exprs)
+    while todo:
+        e = todo.pop()
+        if e.get_id() in seen:
+            continue
+        seen.add(e.get_id())
+        if z3.is_const(e) and e.decl().kind() == z3.Z3_OP_UNINTERPRETED:
+            out.append(e)
+        todo.extend(e.children())
+    return out
+
+
+def part_group_delimiting(ctx, eng):
+    """reorder.rs: (1) ReorderableItemKind::from over an arbitrary item (its ast kind is a symbolic discriminant; contains_macro_use_attr,
+    contains_skip and is_mod_decl are symbolic): an item with #[macro_use] or a skip attribute is never reorderable, and items of two different
+    ast kinds never share a reorderable kind.  (2) the take_while predicate of walk_reorderable_or_regroupable_items over arbitrary line ranges:
+    an item joins the run iff it has the run's kind and, when blank lines delimit groups, starts at most one line after the previous item ends;
+    the previous item is then the one just accepted."""
+    rp = make_group_replay(ctx)
+    old = (eng.lenient, eng.inline_only, list(eng.stubs), eng.usize_bound)
+    eng.lenient = True
+    try:
+        # ---- (1)
+        name = eng.find('from', self_ty='ReorderableItemKind', file='src/reorder.rs')
+        kinds = eng.enum_variants('ReorderableItemKind')
+        OTHER = kinds.index('Other')
+        eng.inline_only = [re.compile(re.escape(name) + '$')]
+        runs = []
+        for tag in ('a', 'b'):
+            M, S, D = z3.Bool('item_%s.has_macro_use' % tag), z3.Bool('item_%s.has_skip' % tag), z3.Bool('item_%s.is_mod_decl' % tag)
+            eng.stubs = []
+            eng.stub(r'(^|::)contains_macro_use_attr$', lambda e, s_, a, c, M=M: M, 'contains_macro_use_attr(item) = symbolic')
+            eng.stub(r'(^|::)contains_skip$', lambda e, s_, a, c, S=S: S, 'contains_skip(attrs) = symbolic')
+            eng.stub(r'(^|::)is_mod_decl$', lambda e, s_, a, c, D=D: D, 'is_mod_decl(item) = symbolic')
+            fn = eng.get_fn(name)
+            st = State()
+            args = [eng.fresh_of_type(st, ty, 'item_%s' % tag) for pn, ty in fn.params]
+            outs = ctx.check_outcomes(eng.run(name, args, st), 'ReorderableItemKind::from')
+            runs.append((M, S, D, outs))
+        M, S, D, outs = runs[0]
+        for pi, o in enumerate(outs):
+            if o.kind != 'ret':
+                ctx.prop('group/ReorderableItemKind::from/p%d/no-panic' % pi, o.state.pc, z3.BoolVal(True), [M, S, D], rp, twin=False)
+                continue
+            ctx.prop('group/ReorderableItemKind::from/p%d/macro_use-or-skip-makes-the-item-a-barrier' % pi, o.state.pc, z3.And(z3.Or(M, S), o.value.discr != OTHER), [M, S, D], rp, twin=False)
+
+        def discr_of(o):
+            ds = [c for c in z3_consts(o.state.pc) if '.discr' in c.decl().name() or c.decl().name().endswith('.d')]
+            ds = [c for c in ds if z3.is_bv(c)]
+            return ds
+        da = {c.decl().name(): c for o in runs[0][3] for c in discr_of(o)}
+        db = {c.decl().name(): c for o in runs[1][3] for c in discr_of(o)}
+        if len(da) != 1 or len(db) != 1:
+            raise Inconclusive('group delimiting: the ast kind of the item is not a single symbolic discriminant (%s / %s)' % (list(da), list(db)))
+        ka, kb = list(da.values())[0], list(db.values())[0]
+        n_pairs = 0
+        for oa in runs[0][3]:
+            for ob in runs[1][3]:
+                if oa.kind != 'ret' or ob.kind != 'ret':
+                    continue
+                n_pairs += 1
+                ctx.prop('group/ReorderableItemKind::from/pair%d/two-ast-kinds-never-share-a-reorderable-kind' % n_pairs, oa.state.pc + ob.state.pc + [ka != kb],
+                         z3.And(oa.value.discr == ob.value.discr, oa.value.discr != OTHER), [ka, kb], rp, twin=False)
+        ctx.cover('cover/group/some-item-is-reorderable', [z3.Or([z3.And(z3.And(o.state.pc), o.value.discr != OTHER) for o in outs if o.kind == 'ret'])])
+
+        # ---- (2)
+        tgt = None
+        for r in eng.records:
+            if 'walk_reorderable_or_regroupable_items::{closure' in r['name']:
+                mir = eng.mirs[r['mir']]
+                s0, e0 = mir.index[r['name']]
+                if any('is_same_item_kind' in ln for ln in mir.lines[s0:e0]):
+                    tgt = r['name']
+        if tgt is None:
+            raise Inconclusive('group delimiting: the take_while predicate of walk_reorderable_or_regroupable_items was not found')
+        mir = eng.mirs[eng.by_name[tgt]['mir']]
+        s0, e0 = mir.index[tgt]
+        caps = {}
+        for ln in mir.lines[s0:e0]:
+            m = re.search(r'debug \w+ => \(\*\(\(\*_1\)\.(\d+): ([^)]*)\)\)', ln)
+            if m:
+                caps[int(m.group(1))] = m.group(2).strip()
+        eng.inline_only = [re.compile(re.escape(tgt) + '$')]
+        eng.stubs = []
+        eng.usize_bound = 1 << 32
+        same_kind = z3.Bool('item.has_the_kind_of_the_run')
+        in_group = z3.Bool('blank_lines_delimit_groups')
+        eng.stub(r'is_same_item_kind$', lambda e, s_, a, c: same_kind, 'is_same_item_kind(item) = symbolic')
+        lf = [n for n, _ in eng.src.struct_fields('LineRange', 'src/config/file_lines.rs')]
+        cur_lo, cur_hi = z3.BitVec('current.lo', 64), z3.BitVec('current.hi', 64)
+        last_lo, last_hi = z3.BitVec('last.lo', 64), z3.BitVec('last.hi', 64)
+
+        def mk_range(lo, hi, tag):
+            vals = []
+            for n in lf:
+                vals.append(BV(lo, 'usize') if n == 'lo' else BV(hi, 'usize') if n == 'hi' else Opaque('Arc<SourceFile>', tag))
+            return Tup(vals, 'LineRange')
+
+        def llr(e, s_, a, c):
+            s_.trace.append(('lookup',))
+            return mk_range(cur_lo, cur_hi, 'current.file')
+        eng.stub(r'lookup_line_range$', llr, 'ParseSess::lookup_line_range(item.span()) = an arbitrary line range')
+        st = State()
+        st.assume(z3.And(z3.ULT(cur_lo, 1 << 32), z3.ULT(cur_hi, 1 << 32), z3.ULT(last_lo, 1 << 32), z3.ULT(last_hi, 1 << 32)))
+        env = []
+        last_ref = None
+        n_bool = 0
+        for i in range(max(caps) + 1 if caps else 0):
+            ty = caps.get(i, '')
+            if re.match(r'^&\s*bool$', ty):
+                n_bool += 1
+                env.append(eng.ref_to(st, in_group, False, 'in_group'))
+            elif re.match(r'^&mut .*LineRange$', ty):
+                last_ref = eng.ref_to(st, mk_range(last_lo, last_hi, 'last.file'), True, 'last')
+                env.append(last_ref)
+            else:
+                env.append(eng.fresh_of_type(st, ty, 'capture%d' % i))
+        if n_bool != 1 or last_ref is None:
+            raise Inconclusive('group delimiting: the predicate captures %r (expected one &bool and one &mut LineRange)' % (caps,))
+        fn = eng.get_fn(tgt)
+        clos = eng.ref_to(st, Tup(env, re.sub(r'^&mut ', '', fn.params[0][1])), True, 'closure')
+        item = eng.fresh_of_type(st, fn.params[1][1], 'item')
+        outs = ctx.check_outcomes(eng.run(tgt, [clos, item], st), 'take_while predicate')
+        mv = [same_kind, in_group, cur_lo, cur_hi, last_lo, last_hi]
+        adjacent = z3.ULT(cur_lo, last_hi + 2)
+        belongs = z3.And(same_kind, z3.Or(z3.Not(in_group), adjacent))
+        for pi, o in enumerate(outs):
+            tag = 'group/take_while/p%d' % pi
+            if o.kind != 'ret':
+                ctx.prop(tag + '/no-panic', o.state.pc, z3.BoolVal(True), mv, rp, twin=False)
+                continue
+            v = o.value if z3.is_bool(o.value) else (o.value.e != 0)
+            ctx.prop(tag + '/an-item-joins-the-run-iff-same-kind-and-no-blank-line-before-it', o.state.pc, v != belongs, mv, rp)
+            after = eng.read_ref(o.state, last_ref)
+            a_lo, a_hi = after.items[lf.index('lo')].e, after.items[lf.index('hi')].e
+            ctx.prop(tag + '/the-accepted-item-becomes-the-previous-one', o.state.pc, z3.And(v, in_group, z3.Or(a_lo != cur_lo, a_hi != cur_hi)), mv, rp, twin=False)
+    finally:
+        eng.lenient, eng.inline_only, eng.stubs, eng.usize_bound = old
+
+
+GROUP_CASES = [
+    ('macro_use mod is a barrier', 'mod z;\n#[macro_use]\nmod m;\nmod a;\n', ['mod z;', 'mod m;', 'mod a;']),
+    ('macro_use use is a barrier', 'use z::z;\n#[macro_use]\nuse m::m;\nuse a::a;\n', ['use z::z;', 'use m::m;', 'use a::a;']),
+    ('macro_use extern crate is a barrier', 'extern crate z;\n#[macro_use]\nextern crate m;\nextern crate a;\n', ['extern crate z;', 'extern crate m;', 'extern crate a;']),
+    ('skipped mod is a barrier', 'mod z;\n#[rustfmt::skip]\nmod m;\nmod a;\n', ['mod z;', 'mod m;', 'mod a;']),
+    ('skipped use is a barrier', 'use z::z;\n#[rustfmt::skip]\nuse m::m;\nuse a::a;\n', ['use z::z;', 'use m::m;', 'use a::a;']),
+    ('blank line delimits mods', 'mod z;\n\nmod a;\n', ['mod z;', 'mod a;']),
+    ('blank line delimits imports', 'use z::z;\n\nuse a::a;\n', ['use z::z;', 'use a::a;']),
+    ('blank line delimits extern crates', 'extern crate z;\n\nextern crate a;\n', ['extern crate z;', 'extern crate a;']),
+    ('another kind is a barrier', 'use z::z;\nmod m;\nuse a::a;\n', ['use z::z;', 'mod m;', 'use a::a;']),
+    ('a three-line item then an adjacent one', 'use z::{\n    y,\n};\nuse a::a;\n\nuse b::b;\n', ['use a::a;', 'use z::', 'use b::b;']),
+    ('adjacent items are one group', 'mod z;\nmod a;\nmod k;\n', ['mod a;', 'mod k;', 'mod z;']),
+]
+
+
+def make_group_replay(ctx):
+    def replay(model, r):
+        bins = ensure_bins()
+        rf = os.path.join(bins, 'rustfmt')
+        d = os.path.join(BUILD, 'scratch', 'c11g-%d' % os.getpid())
+        shutil.rmtree(d, ignore_errors=True)
+        os.makedirs(d)
+        found = []
+        for what, src, order in GROUP_CASES:
+            for se in ('2015', '2024'):
+                p_ = os.path.join(d, 'x.rs')
+                open(p_, 'w').write(src)
+                pr = subprocess.run([rf, '--emit', 'stdout', '--quiet', '--style-edition', se, '--config', 'skip_children=true', p_], capture_output=True, text=True, env=run_env(), timeout=60, cwd=d)
+                if pr.returncode != 0:
+                    continue
+                pos = [pr.stdout.find(x) for x in order]
+                if -1 in pos or pos != sorted(pos):
+                    found.append('%s (style edition %s): expected the order %s, got %r' % (what, se, order, pr.stdout[:120]))
+        shutil.rmtree(d, ignore_errors=True)
+        return {'reproduced': bool(found), 'detail': found[:6]}
+    return replay
+
 
 def universe():
     """identifiers built from small chunks (maximal chunking respected)"""
